@@ -22,7 +22,8 @@ class NaiveServer:
                 k = k.encode("utf8" if cfg.get("unicode") else "ascii")
             except Exception:
                 return None
-        k = cfg.get("prefix", b"") + k
+        pfx = cfg.get("prefix", b"")
+        k = (pfx.encode("ascii") if isinstance(pfx, str) else pfx) + k
         if not k or len(k) > 250 or any(c in b" \t\r\n\x0b\x0c\x00" for c in k):
             return None
         return k
